@@ -79,7 +79,12 @@ def _strategy(draw):
     dense = draw(st.integers(0, 3)) == 0
     vol_per_res = 6.0 if dense else 22.0
     edge = max(3.0, round((nres * vol_per_res) ** (1.0 / 3.0), 1))
-    if draw(st.booleans()):
+    shape = draw(st.integers(0, 5))
+    if shape == 0:
+        # long in x, short in y and z, same volume: most placements happen close to a y or z face
+        short = max(2.4, round(edge * 0.6, 1))
+        box = [round(edge ** 3 / short ** 2, 1), short, short]
+    elif shape <= 2:
         box = [edge, edge, edge]
     else:
         box = [edge, round(edge + draw(st.sampled_from([0.4, 1.1])), 2),
